@@ -522,11 +522,11 @@ def work_runloop(unit):
             new = s.responses[n0:]
             bad = [r for r in new if r.typ == "BAD"]
             if not bad:
-                fails.append(Failure(PROP, "C08.rejected-without-BAD", {"closed": s.task.done()}, {"driver": "c08-run", "sentence": sentence}, "BAD",
+                fails.append(Failure(PROP, "C08.rejected-without-BAD", {"closed": s.task.done()}, {"driver": "c08-run", "sentence": sentence, "first": unit[0]}, "BAD",
                                      [r.raw[:80].decode("latin-1") for r in new]))
             r2, _ = s.do("NOOP", horizon=10)
             if r2 is None or r2.typ != "OK":
-                fails.append(Failure(PROP, "C08.connection-dropped-after-BAD", {"closed": s.task.done()}, {"driver": "c08-run", "sentence": sentence},
+                fails.append(Failure(PROP, "C08.connection-dropped-after-BAD", {"closed": s.task.done()}, {"driver": "c08-run", "sentence": sentence, "first": unit[0]},
                                      "NOOP answered OK after the BAD", str(r2)))
     finally:
         w.close()
@@ -671,7 +671,9 @@ def run(tier, seed, jobs) -> Result:
             res.failures.append(Failure(PROP, "C08.ill-formed-accepted", {"class": cls, "command": cmd.command},
                                         {"driver": "c08-rej", "sentence": r}, "BadCommand", f"parsed as {cmd.command}, left over {cmd.input[:20]!r}"))
     rj = [r for r in rj if parse_one(r)[0] != "ok"]
-    runits = [rj[i : i + 40] for i in range(0, len(rj), 40)]
+    # (the very first line of a connection is a line like any other: `POP3` is what the POP3 front-end announces itself with)
+    rj = ["POP3"] + rj
+    runits = [rj[i : i + 40] for i in range(0, len(rj), 40)] + [["POP3 "], ["pop3"], ["POP3", "a1 NOOP x y z ("]]
     nr = 0
     for f, n, _ in pmap(work_runloop, runits, jobs):
         res.failures.extend(f)
@@ -730,4 +732,6 @@ def replay(rec):
     if rp["driver"] == "c08-rej":
         st, cmd, err = parse_one(rp["sentence"])
         return [Failure(PROP, "C08.ill-formed-accepted", {}, rp, None, None)] if st == "ok" else []
-    return work_runloop([rp["sentence"]])[0]
+    # (what came first on the connection may matter: replay it too)
+    unit = [rp["sentence"]] if rp.get("first") in (None, rp["sentence"]) else [rp["first"], rp["sentence"]]
+    return [f for f in work_runloop(unit)[0] if f.replay["sentence"] == rp["sentence"]]
